@@ -1,5 +1,6 @@
 import IoraModel.Lemmas.WsFrame
 import IoraModel.Lemmas.WsStream
+import IoraModel.Lemmas.WsClient
 import IoraModel.Lemmas.Utf8
 import IoraModel.Common.Framing
 /-!
@@ -112,5 +113,30 @@ theorem W5_no_data_after_close (max : Nat) (ops : List AppOp) : NoDataAfterClose
 more than `max + 13` unparsed bytes. -/
 theorem W6_server_buffer_bounded (max : Nat) (ops : List AppOp) : (run max {} ops).1.buffer.length < 14 + max :=
   run_buffer max ops {} (by simp; omega)
+
+/-! ## Client (`websocket_client.hpp`) -/
+
+/-- **W3 (client events).** For ANY stream of valid frames (CLOSE anywhere) and any two segmentations, a connected client
+produces the same events; they are the per-frame handler folded over the frames. -/
+theorem W3_client_segmentation_independent (fs : List Frame) (hv : ValidFrames clientMaxPayload fs)
+    (ss ts : List Bytes) (hs : ss.flatten = stream fs) (ht : ts.flatten = stream fs) :
+    (cRun {} (ss.map COp.data)).2 = (cRun {} (ts.map COp.data)).2 := by
+  rw [cRun_data_eq ss {} fs hv rfl (by simpa using hs) (by simp [parse]),
+      cRun_data_eq ts {} fs hv rfl (by simpa using ht) (by simp [parse])]
+
+/-- **W4 (client reassembly).** Same statement as the server's (no message-size limit on the client): one pong per
+ping in order, then ONE delivery of the in-order concatenation, text only if valid UTF-8 (else close 1007). -/
+theorem W4_client_reassembly (op : Nat) (hop : op = 1 ∨ op = 2) (fs : List Frame) (acc : Bytes) (ht : Tail acc fs)
+    (s : CSess) (hfo : s.fragOp = op) :
+    (cInterp s (fs.map toP)).2 = cPongsOf fs ++ cDeliverEv op (s.fragBuf ++ acc) :=
+  cReassembly_tail op hop fs acc ht s hfo
+
+/-- **W5 (client).** For every history of application sends and reads, no data frame follows a close frame. -/
+theorem W5_client_no_data_after_close (ops : List COp) : NoDataAfterCloseC (cRun {} ops).2 :=
+  (cRun_noDataAfterClose ops {}).2
+
+/-- **W6c (client).** For every history and arbitrary peer bytes the client retains < 14 + kMaxFramePayload unparsed bytes. -/
+theorem W6_client_buffer_bounded (ops : List COp) : (cRun {} ops).1.buffer.length < 14 + clientMaxPayload :=
+  cRun_buffer ops {} (by simp; omega)
 
 end Iora.C18
